@@ -52,9 +52,18 @@ def run(ch, build):
                 hdr_bits = list(range(0, 16 * 8))
                 muts += [(ex, "flip:%d" % b) for b in (rng.sample(hdr_bits, 8) if ch.quick() else hdr_bits)]
                 muts += [(ex, "trunc:%d" % t) for t in (range(n) if not ch.quick() else rng.sample(range(n), min(n, 24)))]
+                # the BMC sends a shorter message (wrapper length consistent): every payload length below the genuine one
+                pl = n - 16
+                muts += [(ex, "truncpayload:%d" % t) for t in (range(pl) if not ch.quick() else sorted(set(rng.sample(range(pl), min(pl, 12)) + [0, 1, 7, 8, 9, pl - 1])))]
                 sts = range(1, 256) if not ch.quick() else rng.sample(range(1, 256), 12)
                 muts += [(ex, "setbytes:17=%d" % st) for st in sts]
                 muts += [(ex, "setbytes:16=%d" % tg) for tg in (1, 0x80, 0xff)]
+            if kg:
+                for t in (8, 9, 12, 16):
+                    sx = base(13, override_kg=bytes(range(1, 21)).hex())
+                    sx["steps"] = [hs.open_step(password=pw, kg=kg, suites=[su], script=["ok", "ok", "truncpayload:%d" % t])]
+                    sx["variant"] = "wrongkg-shortrakp4"; sx["expect_ok"] = False; sx["suite"] = su
+                    scns.append(sx)
             for (ex, mu) in muts:
                 s = base(12)
                 s["steps"] = [hs.open_step(password=pw, kg=kg, suites=[su], script=["ok"] * ex + [mu])]
@@ -93,6 +102,8 @@ def run(ch, build):
                 ch.violation(desc, {"scenario": scn, "what": "a wrong RAKP 2 code must yield ErrIncorrectPassword, got %s (%s)" % (res["err"], res.get("errtext"))})
             if scn.get("mutation") and scn["mutation"][1].startswith("setbytes:17") and res["err"] == "nil":
                 ch.violation(desc, {"scenario": scn, "what": "non-OK status accepted"})
+        if res["err"] == "nil" and scn.get("mutation") and scn["mutation"][1].startswith("truncpayload"):
+            ch.violation(desc, {"scenario": scn, "what": "a session was returned although a handshake message was truncated"})
     ch.extra["cases_by_kind"] = fam
     return ch.finish(rule=RULE, assumptions=["as C01"])
 
